@@ -63,7 +63,7 @@ func vhC15Cursor[G any](cfg vhConfig) {
 	p := vhBuild[G](cfg, def, k)
 	var elided []lexer.TokenType
 	for _, e := range cfg.elide {
-		elided = append(elided, vhSymbols[e])
+		elided = append(elided, cfg.symbols()[e])
 	}
 	pl, uerr := lexer.Upgrade(&vhStreamLexer{toks: toks}, elided...)
 	vAssert(uerr == nil, "Upgrade failed")
@@ -74,7 +74,7 @@ func vhC15Cursor[G any](cfg vhConfig) {
 	}
 	var g G
 	root := vhGrammar(reflect.TypeOf(g), cfg.unions)
-	rc := &refctx{T: toks, elide: cfg.elideMap(), k: k, sym: vhSymbols, ci: cfg.ciMap()}
+	rc := &refctx{T: toks, elide: cfg.elideMap(), k: k, sym: cfg.symbols(), ci: cfg.ciMap()}
 	accept, _, end := rc.parse(root, true)
 	if rc.bug || !accept {
 		return
@@ -179,9 +179,57 @@ func VH_C15_LexEntryPoints() {
 	vReach("lexed")
 }
 
-func VH_C15_Trace_Alt()    { vhC15Trace[vgAlt](vhElideWs) }
-func VH_C15_Trace_Sub()    { vhC15Trace[vgSub](vhNoElide) }
-func VH_C15_Trace_Neg()    { vhC15Trace[vgNeg](vhNoElide) }
+func VH_C15_Trace_Alt() { vhC15Trace[vgAlt](vhElideWs) }
+func VH_C15_Trace_Sub() { vhC15Trace[vgSub](vhNoElide) }
+func VH_C15_Trace_Neg() { vhC15Trace[vgNeg](vhNoElide) }
+
+// a root production implemented by user code (Parseable): ParseFromLexer must
+// leave the caller's lexer where that code stopped
+type vgRootParseable struct {
+	N int
+}
+
+func (g *vgRootParseable) Parse(lex *lexer.PeekingLexer) error {
+	for lex.Peek().Type == vhTA {
+		lex.Next()
+		g.N++
+	}
+	return nil
+}
+
+func VH_C15_Cursor_Parseable() {
+	toks := vhStream()
+	k := vInt("lookahead")
+	p := vhBuild[vgRootParseable](vhElideWs, &vhStreamDef{toks: toks}, k)
+	pl, uerr := lexer.Upgrade(&vhStreamLexer{toks: toks}, vhTWs)
+	vAssert(uerr == nil, "Upgrade failed")
+	g, err := p.ParseFromLexer(pl, AllowTrailing(true))
+	vAssert(err == nil && g != nil, "C15: a Parseable root that returns nil must parse")
+	n, end, i := 0, 0, 0
+	for {
+		j := i
+		for !toks[j].EOF() && toks[j].Type == vhTWs {
+			j++
+		}
+		if toks[j].EOF() || toks[j].Type != vhTA {
+			break
+		}
+		n++
+		i = j + 1
+		end = i
+	}
+	vAssert(g.N == n, "C15: the Parseable root saw a different stream")
+	vAssert(int(pl.RawCursor()) == end, "C15: after ParseFromLexer (Parseable root) the caller's lexer is not at the first unconsumed raw token")
+	j := end
+	for !toks[j].EOF() && toks[j].Type == vhTWs {
+		j++
+	}
+	vAssert(pl.Peek().Pos.Offset == toks[j].Pos.Offset, "C15: after ParseFromLexer (Parseable root) Peek is not the first token the parse did not consume")
+	if n > 0 {
+		vReach("accept")
+	}
+}
+
 func VH_C15_Cursor_Seq()   { vhC15Cursor[vgSeq](vhElideWs) }
 func VH_C15_Cursor_Group() { vhC15Cursor[vgGroup](vhElideWs) }
 func VH_C15_Cursor_Opt()   { vhC15Cursor[vgOpt](vhNoElide) }
